@@ -47,7 +47,19 @@ def gen_case(rng, tier):
         fs = [2, p]
     npts = 6
     pts = [[a[k] + (b[k] - a[k]) * Fr(rng.randrange(0, 2 ** 5 + 1), 2 ** 5) for k in range(d)] for _ in range(npts)]
-    return dict(d=d, lmin=lmin, lmax=lmax, a=a, b=b, boundary=boundary, fs=fs, pts=pts, grid_eval=rng.random() < 0.5)
+    # follow-up requests on the SAME StandardCombi object (histories: stale state between requests must not leak)
+    more = []
+    if rng.random() < 0.6:
+        for _ in range(rng.choice([1, 1, 2])):
+            sh = rng.choice([-1, 1, 1, 0])
+            l2 = max(1, lmin + sh)
+            sp2 = span if rng.random() < 0.6 else max(0, span + rng.choice([-1, 1]))
+            if d == 4:
+                l2, sp2 = min(l2, 2), min(sp2, 1)
+            if d == 3:
+                sp2 = min(sp2, 2)
+            more.append([l2, l2 + min(sp2, 3)])
+    return dict(d=d, lmin=lmin, lmax=lmax, a=a, b=b, boundary=boundary, fs=fs, pts=pts, grid_eval=rng.random() < 0.5, more=more)
 
 
 def make_function(fs, a, b):
@@ -88,7 +100,15 @@ def impl_run(c):
     grid = TrapezoidalGrid(a=a, b=b, boundary=c['boundary'])
     op = Integration(f=f, grid=grid, dim=c['d'])
     sc = StandardCombi(a, b, operation=op, print_output=False)
-    scheme, err, result = sc.perform_operation(c['lmin'], c['lmax'])
+    out = []
+    for (lmin, lmax) in [(c['lmin'], c['lmax'])] + [tuple(x) for x in c.get('more', [])]:
+        out.append(impl_request(c, sc, grid, f, lmin, lmax))
+    return out
+
+
+def impl_request(c, sc, grid, f, lmin, lmax):
+    import numpy as np
+    scheme, err, result = sc.perform_operation(lmin, lmax)
     sch = [[[int(x) for x in g.levelvector], sx.rat(g.coefficient)] for g in scheme]
     comps = []
     for g in scheme:
@@ -174,6 +194,30 @@ def oracle(c, r):
     return None
 
 
+def sparse_grid_points(c):
+    """the sparse grid of the requested index set {l >= lmin, |l - lmin|_1 <= lmax - lmin}, from the property statement"""
+    d, lmin, n = c['d'], c['lmin'], c['lmax'] - c['lmin']
+    pts = set()
+    for lv in itertools.product(range(lmin, c['lmax'] + 1), repeat=d):
+        if sum(x - lmin for x in lv) != n:
+            continue
+        axes = []
+        for k in range(d):
+            rng_i = range(0, 2 ** lv[k] + 1) if c['boundary'] else range(1, 2 ** lv[k])
+            axes.append([c['a'][k] + (c['b'][k] - c['a'][k]) * Fr(i, 2 ** lv[k]) for i in rng_i])
+        pts.update(itertools.product(*axes))
+    return pts
+
+
+def oracle_union(c, r):
+    got = set(tuple(p) for comp in r['comps'] for p in map(tuple, comp[2]))
+    want = sparse_grid_points(c)
+    if got != want:
+        return 'union of the component-grid points (%d points) is not the sparse grid of the requested lmin=%d lmax=%d (%d points)' % (
+            len(got), c['lmin'], c['lmax'], len(want))
+    return None
+
+
 def compare(c, r, m):
     """model vs implementation; returns list of differing observables"""
     diffs = []
@@ -206,6 +250,11 @@ def to_model(c):
     return (0, [1 if c['boundary'] else 0, c['a'], c['b'], c['lmin'], c['lmax'], c['fs'], c['pts']])
 
 
+def requests(c):
+    """the single-request views of a history case"""
+    return [dict(c, more=[])] + [dict(c, lmin=x[0], lmax=x[1], more=[]) for x in c.get('more', [])]
+
+
 CORPUS = [
     dict(d=2, lmin=1, lmax=3, a=[Fr(0), Fr(0)], b=[Fr(1), Fr(1)], boundary=True, fs=[0, [Fr(1), Fr(-2)], [Fr(1), Fr(2)]],
          pts=[[Fr(1, 4), Fr(3, 8)], [Fr(1), Fr(0)], [Fr(5, 32), Fr(1, 2)]], grid_eval=True),
@@ -220,36 +269,48 @@ def run(chk):
     n = chk.n(150, 3000)
     cases = CORPUS + [gen_case(chk.rng, chk.tier) for _ in range(n)]
     impl = run_impl(impl_run, cases, limit=300)
-    mres = run_model(2, [to_model(c) for c in cases], nproc=16)
+    flat = [(ci, k, cr) for ci, c in enumerate(cases) for k, cr in enumerate(requests(c))]
+    mres = run_model(2, [to_model(cr) for _, _, cr in flat], nproc=16)
     keys, samples = [], []
     search = []
-    for c, (st, r), m in zip(cases, impl, mres):
+    for (ci, k, c), m in zip(flat, mres):
+        full = cases[ci]
+        hist = dict(full, more=full.get('more', [])[:k])      # the history up to and including this request (replayable)
+        st, rr = impl[ci]
         chk.count('d=%d' % c['d']); chk.count('boundary=%s' % c['boundary']); chk.count('fkind=%d' % c['fs'][0])
-        chk.count('span=%d' % (c['lmax'] - c['lmin']))
+        chk.count('span=%d' % (c['lmax'] - c['lmin'])); chk.count('request#%d' % k)
         if st != 'ok':
-            chk.violation('corr:C02/run', 'impl-exception', {'exc': r[0] if r else st}, c, dict(impl=str(r)))
+            if k == 0:
+                chk.violation('corr:C02/run', 'impl-exception', {'exc': rr[0] if rr else st}, full, dict(impl=str(rr)))
             continue
+        r = rr[k]
         if sx.is_err(m) or isinstance(m, tuple):
-            chk.violation('corr:C02/run', 'model-rejects', {}, c, dict(model=str(m)), failing_input=False)
+            chk.violation('corr:C02/run', 'model-rejects', {}, hist, dict(model=str(m)), failing_input=False)
             continue
         chk.traces += 1
         why = oracle(c, r)
         if why:
-            chk.violation('oracle:std_combi', 'property-predicate', {'boundary': c['boundary'], 'fkind': c['fs'][0]}, c, dict(why=why))
+            chk.violation('oracle:std_combi', 'property-predicate', {'boundary': c['boundary'], 'fkind': c['fs'][0], 'request': min(k, 1)}, hist, dict(why=why, request=[c['lmin'], c['lmax']]))
         if m[0] != 1:
-            # verified checker: closed form == adaptive init for this (d, lmin, span)
-            chk.violation('checker:std_eq_adaptive', 'closed-form-not-ie', {}, c, dict(note='model closed form differs from adaptive init'),
+            chk.violation('checker:std_eq_adaptive', 'closed-form-not-ie', {}, hist, dict(note='model closed form differs from adaptive init'),
                           failing_input=False)
         diffs = compare(c, r, m)
         if diffs and not why:
-            search.append(c)
-            chk.violation('corr:C02/' + '+'.join(diffs), 'model-differs', {'observable': ','.join(diffs)}, c,
-                          dict(differs=diffs, impl_integral=str(r['integral']), model_integral=str(sx.q(m[4])),
-                               impl_vals=str(r['vals'])[:400], model_vals=str([sx.q(x) for x in m[3]])[:400]), failing_input=False)
+            # a scheme/points mismatch against the requested (lmin, lmax) is itself a property violation when the union of the
+            # component grids is not the sparse grid of the requested index set: evaluate that clause on the implementation
+            why2 = oracle_union(c, r)
+            if why2:
+                chk.violation('oracle:std_combi_union', 'property-predicate', {'boundary': c['boundary'], 'fkind': c['fs'][0], 'request': min(k, 1)}, hist,
+                              dict(why=why2, request=[c['lmin'], c['lmax']], differs=diffs))
+            else:
+                search.append(c)
+                chk.violation('corr:C02/' + '+'.join(diffs), 'model-differs', {'observable': ','.join(diffs)}, hist,
+                              dict(differs=diffs, impl_integral=str(r['integral']), model_integral=str(sx.q(m[4])),
+                                   impl_vals=str(r['vals'])[:400], model_vals=str([sx.q(x) for x in m[3]])[:400]), failing_input=False)
         if c['d'] >= 2 and c['lmax'] > c['lmin']:
-            keys.append((c['d'], c['lmin'], c['lmax'], c['boundary'], str(c['a']), str(c['b']), str(c['fs'])))
-        if len(samples) < 3 and c['d'] >= 2 and c['lmax'] > c['lmin']:
-            samples.append(dict(d=c['d'], lmin=c['lmin'], lmax=c['lmax'], boundary=c['boundary'], a=[str(x) for x in c['a']],
+            keys.append((c['d'], c['lmin'], c['lmax'], c['boundary'], str(c['a']), str(c['b']), str(c['fs']), k))
+        if len(samples) < 3 and c['d'] >= 2 and c['lmax'] > c['lmin'] and k > 0:
+            samples.append(dict(d=c['d'], history=[[full['lmin'], full['lmax']]] + full['more'][:k], boundary=c['boundary'], a=[str(x) for x in c['a']],
                                 b=[str(x) for x in c['b']], f=str(c['fs']), integral=str(r['integral']),
                                 sparse_grid_points=len(r['nodal'] or []), scheme=str(r['scheme'])))
     # failing-input search: for configurations where only the correspondence broke, look for a hierarchical hat function
@@ -289,13 +350,15 @@ def replay(chk, rep):
     for k in ('a', 'b', 'pts'):
         c[k] = fr(c[k])
     c['fs'] = [c['fs'][0]] + [fr(x) if c['fs'][0] != 1 else x for x in c['fs'][1:]]
-    st, r = run_impl(impl_run, [c])[0]
-    print('impl:', st, str(r)[:1500])
-    m = run_model(2, [to_model(c)])[0]
-    print('model:', str(m)[:1500])
-    if st == 'ok':
-        why = oracle(c, r)
-        print('property predicate:', why or 'holds')
-        print('model differs in:', compare(c, r, m))
-        return 1 if why else 0
-    return 1
+    c.setdefault('more', [])
+    st, rr = run_impl(impl_run, [c])[0]
+    print('impl:', st, str(rr)[:1500])
+    if st != 'ok':
+        return 1
+    bad = 0
+    for cr, r in zip(requests(c), rr):
+        m = run_model(2, [to_model(cr)])[0]
+        why = oracle(cr, r) or oracle_union(cr, r)
+        print('request', [cr['lmin'], cr['lmax']], 'property predicate:', why or 'holds', '; model differs in:', compare(cr, r, m))
+        bad += bool(why)
+    return 1 if bad else 0
